@@ -3,6 +3,6 @@
 # one that fails in the pristine snapshot as well (huginn-net-tls golden_tests: pcap path outside the repo).
 cd /repo && cargo test --workspace --no-fail-fast --offline > /tmp/baseline_off.log 2>&1
 echo "ok tests: $(grep -c '^test .* ok$' /tmp/baseline_off.log)"
-grep '^test .*FAILED' /tmp/baseline_off.log | grep -v test_golden_pcap_snapshots && { echo "UNEXPECTED FAILURES"; exit 1; }
+grep -E '^test [A-Za-z0-9_:]+ \.\.\. FAILED' /tmp/baseline_off.log | grep -v test_golden_pcap_snapshots && { echo "UNEXPECTED FAILURES"; exit 1; }
 grep -q "error\[" /tmp/baseline_off.log && { echo "BUILD ERROR"; exit 1; }
 echo "baseline clean (only the always-failing tls golden_tests)"
